@@ -32,6 +32,8 @@ pub struct In {
     pub cl_setting: Option<bool>,
     /// hand the lazer flag to `Performance::lazer` instead of `Difficulty::lazer`
     pub lazer_via_setter: bool,
+    /// how the Classic mod travels: 0 = lazer GameMods, 1 = GameModsIntermode, 2 = &GameModsIntermode (only without setting)
+    pub cl_repr: u8,
     /// osu! only: provided large tick / small tick / slider end hits
     pub ticks: [Option<u32>; 3],
     pub passed: Option<u32>,
@@ -184,6 +186,7 @@ fn gen_in_raw(rng: &mut Rng, mode: GameMode, n: u32) -> In {
         cl: rng.chance(0.3),
         cl_setting: if mode == GameMode::Osu { *rng.pick(&[None, None, Some(true), Some(false)]) } else { None },
         lazer_via_setter: rng.chance(0.5),
+        cl_repr: rng.below(3) as u8,
         ticks: if mode == GameMode::Osu && rng.chance(0.4) {
             [opt(rng, 0.5), opt(rng, 0.5), opt(rng, 0.5)]
         } else {
@@ -214,7 +217,11 @@ pub fn build_on<'a>(start: Performance<'a>, mode: GameMode, i: &In) -> Performan
         d = d.mods(
             ModSpec {
                 bits: 0,
-                repr: Repr::Lazer,
+                repr: match (i.cl_repr, mode == GameMode::Osu && i.cl_setting.is_some()) {
+                    (1, false) => Repr::LazerAsIntermode,
+                    (2, false) => Repr::LazerAsIntermodeRef,
+                    _ => Repr::Lazer,
+                },
                 extra: LazerExtra {
                     cl: Some(if mode == GameMode::Osu { i.cl_setting } else { None }),
                     ..LazerExtra::default()
@@ -568,9 +575,15 @@ pub fn case_count(tier: crate::runner::Tier) -> u64 {
 }
 
 fn evaluate(ctx: &mut Ctx, mode: GameMode, attrs: &DifficultyAttributes, i: &In) {
+    evaluate_with(ctx, mode, attrs, i, "", &|i| Some(build(attrs, mode, i)));
+}
+
+/// `mk` creates the configured builder (None: this entry path is not available, e.g. a conversion error); `entry` names
+/// the entry path in signatures ("" = builder from attributes).
+fn evaluate_with<'m>(ctx: &mut Ctx, mode: GameMode, attrs: &DifficultyAttributes, i: &In, entry: &str, mk: &dyn Fn(&In) -> Option<Performance<'m>>) {
     let mname = mode_name(mode);
     let r = guard(|| {
-        let mut b = build(attrs, mode, i);
+        let mut b = mk(i)?;
         let s1 = bracket("generate_state", || b.generate_state());
         let s2 = bracket("generate_state", || b.generate_state());
         let calc = bracket("performance::calculate", || b.calculate());
@@ -579,21 +592,23 @@ fn evaluate(ctx: &mut Ctx, mode: GameMode, attrs: &DifficultyAttributes, i: &In)
         fresh_in.combo = None;
         fresh_in.misses = None;
         fresh_in.r = vec![None; n_results(mode)];
-        let fresh = build(attrs, mode, &fresh_in).state(s1.clone());
+        fresh_in.ticks = [None; 3];
+        let fresh = mk(&fresh_in)?.state(s1.clone());
         let calc2 = bracket("performance::calculate", || fresh.calculate());
-        (s1, s2, calc, calc2)
+        Some((s1, s2, calc, calc2))
     });
     ctx.eval();
-    let pat = provided_pattern(i);
-    let witness = |what: &str| format!("{what}\n mode={mname} attrs={}\n input={i:?}", dump(attrs));
+    let pat = format!("{}{entry}", provided_pattern(i));
+    let witness = |what: &str| format!("{what}\n mode={mname} entry={entry} attrs={}\n input={i:?}", dump(attrs));
     match r {
         Err(p) => {
             ctx.violation(&format!("C12/{mname}/S1-panic/{}/{pat}", p.sig()), &witness(&format!("panic {} at {}", p.msg, p.loc)), None);
         }
-        Ok((s1, s2, calc, calc2)) => {
+        Ok(None) => {}
+        Ok(Some((s1, s2, calc, calc2))) => {
             if let Some((clause, msg)) = check_state(attrs, mode, i, &s1) {
                 let cp = clause_pattern(mode, &clause, i, attrs);
-                ctx.violation(&format!("C12/{mname}/{clause}/{cp}"), &witness(&format!("{msg}\n generated={s1:?}")), None);
+                ctx.violation(&format!("C12/{mname}/{clause}/{cp}{entry}"), &witness(&format!("{msg}\n generated={s1:?}")), None);
             }
             if s1 != s2 {
                 ctx.violation(&format!("C12/{mname}/S5-stable/{pat}"), &witness(&format!("first={s1:?}\n second={s2:?}")), None);
@@ -606,6 +621,55 @@ fn evaluate(ctx: &mut Ctx, mode: GameMode, attrs: &DifficultyAttributes, i: &In)
                 );
             }
         }
+    }
+}
+
+/// The same clauses for a builder created from an osu!standard *map*, configured while it still is the osu! builder and only
+/// then switched to the target mode (`try_mode` / `mode_or_ignore`): provided values must survive the switch.
+fn via_map(ctx: &mut Ctx, rng: &mut Rng) {
+    use crate::gen::{self, Mix};
+    let mx = Mix {
+        realistic: true,
+        max_objects: 40,
+        fixtures: true,
+        mode: Some(0),
+        ..Mix::default()
+    };
+    let Some((_mc, map)) = gen::gen_domain_map(rng, &mx, crate::maps::Domain::Realistic) else { return };
+    if map.mode != GameMode::Osu || map.hit_objects.is_empty() {
+        return;
+    }
+    let mode = *rng.pick(&[GameMode::Osu, GameMode::Taiko, GameMode::Catch, GameMode::Mania]);
+    let Ok(Ok(conv)) = guard(|| map.convert_ref(mode, &0u32.into()).map(std::borrow::Cow::into_owned)) else { return };
+    let Ok(attrs) = guard(|| Difficulty::new().calculate(&conv)) else { return };
+    let n = budget(&attrs);
+    let use_ignore = rng.chance(0.5);
+    let entry = if use_ignore { "/via-mode_or_ignore" } else { "/via-try_mode" };
+    ctx.count(&format!("entry:{}:{}", &entry[1..], mode_name(mode)));
+    let map_ref: &rosu_pp::Beatmap = &map;
+    let mk = move |i: &In| -> Option<Performance<'_>> {
+        let p = build_on(Performance::new(map_ref), mode, i);
+        if use_ignore {
+            Some(p.mode_or_ignore(mode))
+        } else {
+            p.try_mode(mode).ok()
+        }
+    };
+    for _ in 0..12 {
+        let mut i = gen_in(rng, mode, n);
+        // passed_objects would change the attributes the oracle has to use; the full map is enough for this entry path
+        i.passed = None;
+        // only values the osu! builder can hold are given before the switch (it has no katu / geki counters)
+        match mode {
+            GameMode::Catch => i.r[3] = None,
+            GameMode::Mania => {
+                i.r[0] = None;
+                i.r[2] = None;
+            }
+            _ => {}
+        }
+        ctx.count("configurations_via_map");
+        evaluate_with(ctx, mode, &attrs, &i, entry, &mk);
     }
 }
 
@@ -659,6 +723,7 @@ fn exhaustive_case(ctx: &mut Ctx, mode: GameMode, attrs: &DifficultyAttributes) 
                                     cl,
                                     cl_setting: None,
                                     lazer_via_setter: count % 2 == 1,
+                                    cl_repr: (count % 3) as u8,
                                     ticks: [None; 3],
                                     passed: p,
                                 };
@@ -712,5 +777,6 @@ pub fn case(ctx: &mut Ctx, idx: u64) {
         ctx.nontrivial(hash_str(&dump(&attrs)) ^ hash_str(&format!("{i:?}")));
         evaluate(ctx, mode, &attrs, &i);
     }
+    via_map(ctx, &mut rng);
     ctx.sample(|| format!("mode={mname} attrs={}", dump(&attrs)));
 }
